@@ -21,6 +21,29 @@ static bool ConvOne(std::string_view sv, std::string& bad)
 	return true;
 }
 
+template <class T, class TSym>
+static bool ConvWide(const std::basic_string<TSym>& text, std::string& bad)
+{
+	CallResult r = Guarded([&] { (void)BitSerializer::Convert::To<T>(std::basic_string_view<TSym>(text)); });
+	if (!r.isStd) { bad = "non-std exception"; return false; }
+	return true;
+}
+// the same converters fed with 16- and 32-bit code units of any value (a wide string read from a damaged file)
+template <class TSym>
+static bool WideConverters(Source& s, const std::string& bytes, std::string& bad)
+{
+	std::basic_string<TSym> text;
+	const size_t a = s.draw(sim::L_FAULT, static_cast<uint32_t>(bytes.size()));
+	const size_t n = std::min<size_t>((bytes.size() - a) / sizeof(TSym), s.draw(sim::L_FAULT, 12));
+	const uint32_t lead = s.draw(sim::L_FAULT, 3);
+	for (uint32_t i = 0; i < lead; ++i) text.push_back(static_cast<TSym>(i % 2 ? '\t' : ' '));
+	for (size_t i = 0; i < n; ++i) { TSym u; memcpy(&u, bytes.data() + a + i * sizeof(TSym), sizeof(TSym)); text.push_back(u); }
+	if (s.chance(sim::L_FAULT, 1, 2)) { static const uint32_t edge[] = { 0x80000000u, 0xFFFFFFFFu, 0x100, 0xFFFF, 0x7FFFFFFF, 0xD800 }; text.insert(text.begin() + std::min<size_t>(lead, text.size()), static_cast<TSym>(s.pick(sim::L_FAULT, edge))); }
+	if (s.chance(sim::L_FAULT, 1, 2)) { text.push_back(static_cast<TSym>('1')); text.push_back(static_cast<TSym>('2')); }
+	return ConvWide<int32_t>(text, bad) && ConvWide<uint64_t>(text, bad) && ConvWide<int8_t>(text, bad) && ConvWide<double>(text, bad) && ConvWide<float>(text, bad) && ConvWide<bool>(text, bad)
+		&& ConvWide<BitSerializer::ArchiveType>(text, bad) && ConvWide<std::chrono::seconds>(text, bad) && ConvWide<std::chrono::system_clock::time_point>(text, bad) && ConvWide<std::string>(text, bad);
+}
+
 // direct feed of (corrupted) cell texts to the converters: input generation without a schedule, kept because it is free
 static bool ConvertersByProduct(Source& s, const std::string& bytes, std::string& bad)
 {
@@ -437,6 +460,8 @@ Outcome RunC02(RunCtx& ctx)
 	std::string bad;
 	if (!ConvertersByProduct(s, bytes, bad)) return Violation("WRONG_EXCEPTION", "archive=" + an + " what=converter", bad);
 	if (!ChronoConverters(s, bad)) return Violation("WRONG_EXCEPTION", "archive=" + an + " what=chrono_converter", bad);
+	if (!bytes.empty() && (!WideConverters<char16_t>(s, bytes, bad) || !WideConverters<char32_t>(s, bytes, bad) || !WideConverters<wchar_t>(s, bytes, bad)))
+		return Violation("WRONG_EXCEPTION", "archive=" + an + " what=wide_converter", bad);
 	return out;
 }
 
